@@ -431,6 +431,28 @@ static void run_case(char* line) {
     break; }
   case G_EXEPATH: {
     char* a = NEXT(); char* v = NULL; static char real[PATH_MAX * 2]; ssize_t n;
+    if (strcmp(a, "deleted") == 0 || strcmp(a, "literal") == 0) {
+      /* a copy of this executable is run (forked child, exec); "deleted": the copy unlinks its own
+       * file first, so /proc/self/exe ends in " (deleted)"; "literal": the copy's file name really
+       * ends in " (deleted)" and stays.  The copy prints the case's line (see exe_case). */
+      char dst[256]; pid_t pid; int in, out; static char cb[1 << 16];
+      snprintf(dst, sizeof(dst), a[0] == 'd' ? "./exe_copy_%d" : "./exe_copy_%d (deleted)", (int) getpid());
+      in = open("/proc/self/exe", O_RDONLY);
+      out = open(dst, O_CREAT | O_TRUNC | O_WRONLY, 0700);
+      if (in < 0 || out < 0) { printf("SKIP exe-copy errno=%d\n", errno); if (in >= 0) close(in); if (out >= 0) close(out); return; }
+      while ((n = read(in, cb, sizeof(cb))) > 0) if (write(out, cb, (size_t) n) != n) { n = -1; break; }
+      close(in); close(out);
+      if (n < 0) { printf("SKIP exe-copy-write errno=%d\n", errno); unlink(dst); return; }
+      pid = enter_child();
+      if (pid == 0) {
+        execl(dst, dst, "--exe-case", a, caps, (char*) NULL);
+        printf("SKIP exec errno=%d\n", errno);
+        leave_child();
+      }
+      wait_child(pid);
+      unlink(dst);
+      break;
+    }
     if (a[0] == 'x') { v = unhex(a, &l); s_exe = v; s_exe_len = l; s_exe_on = 1;
       printf("exepath "); putx(v, l); }
     else { s_exe_on = 0; n = __real_readlink("/proc/self/exe", real, sizeof(real));
@@ -506,6 +528,18 @@ int main(int argc, char** argv) {
   memset(&sa, 0, sizeof(sa)); sa.sa_handler = on_fatal; sa.sa_flags = SA_ONSTACK;
   sigaction(SIGSEGV, &sa, NULL); sigaction(SIGBUS, &sa, NULL); sigaction(SIGABRT, &sa, NULL);
   sigaction(SIGFPE, &sa, NULL); sigaction(SIGILL, &sa, NULL);
+  if (argc > 3 && strcmp(argv[1], "--exe-case") == 0) {
+    /* we are the copy: argv[0] is our own file, argv[2] the mode, argv[3] the capacities */
+    static char real[PATH_MAX * 2]; ssize_t n; char* caps = strdup(argv[3]);
+    if (strcmp(argv[2], "deleted") == 0 && unlink(argv[0]) != 0) { printf("SKIP unlink-self errno=%d\n", errno); return 0; }
+    n = __real_readlink("/proc/self/exe", real, sizeof(real));
+    if (n < 0) { printf("SKIP readlink\n"); return 0; }
+    s_exe_on = 0;
+    printf("exepath "); putx(real, (size_t) n); printf(" | ");
+    sweep(G_EXEPATH, caps);
+    fflush(stdout);
+    return 0;
+  }
   base_fd = open(".", O_RDONLY | O_DIRECTORY);
   if (base_fd < 0 || getcwd(base_path, sizeof(base_path)) == NULL) die("start directory");
   while (fgets(line, sizeof(line), stdin)) {
